@@ -92,14 +92,14 @@ func utSelector(r *hx.Rng) string {
 var utValPieces = []string{"a", "b", "1", "Z", "-", ".", "_", "~", "/", "?", "#", "&", "=", ",", ";", ":", "@", "!", "$", "'", "(", ")", "*", "+", "[", "]",
 	" ", "%", "%41", "\"", "<", "|", "{", "}"}
 
-func utValues(r *hx.Rng, lists bool) uritemplate.Values {
+func utValues(r *hx.Rng, lists, kv bool) uritemplate.Values {
 	v := uritemplate.Values{}
 	for _, name := range utNames {
 		switch {
 		case r.Chance(0.25): // undefined
 		case lists && r.Chance(0.3):
 			v.Set(name, uritemplate.List(r.StringFrom(utValPieces, 3), r.StringFrom(utValPieces, 2)))
-		case lists && r.Chance(0.15):
+		case kv && r.Chance(0.15):
 			v.Set(name, uritemplate.KV("k", r.StringFrom(utValPieces, 2), "k2", "v"))
 		default:
 			v.Set(name, uritemplate.String(r.StringFrom(utValPieces, 4)))
@@ -113,12 +113,18 @@ func utTopics(r *hx.Rng, sel string, tpl *uritemplate.Template) (topics, expansi
 	add(sel)
 	if tpl != nil {
 		for i := 0; i < 3; i++ { // RFC 6570 expansions for string values (ASCII: the library's Expand is exact there)
-			if s, err := tpl.Expand(utValues(r, false)); err == nil && len(s) < 400 {
+			if s, err := tpl.Expand(utValues(r, false, false)); err == nil && len(s) < 400 {
 				add(s)
 				expansions = append(expansions, s)
 			}
 		}
-		if s, err := tpl.Expand(utValues(r, true)); err == nil && len(s) < 400 {
+		// string and list values: still within C11_expansions_match
+		if s, err := tpl.Expand(utValues(r, true, false)); err == nil && len(s) < 400 {
+			add(s)
+			expansions = append(expansions, s)
+		}
+		// associative arrays too: compared with the model, not required to match
+		if s, err := tpl.Expand(utValues(r, true, true)); err == nil && len(s) < 400 {
 			add(s)
 		}
 	}
